@@ -88,7 +88,12 @@ def generate(rng, tier, index):
         recipe["n"] = max(recipe["n"], 6)
     # low-rank regime: CG solves and a Lanczos root truncated at 3 of n = 10..14 (what large data sets run into at
     # the default max_root_decomposition_size): the LOVE caches are genuinely approximate
-    lowrank = (not iterative) and fam == "default" and not recipe.get("batch") and rng.random() < 0.15
+    # missing observations: NaN training targets, every prediction under a NaN policy (mask / fill in any order)
+    nan_run = fam in ("default", "multitask") and not iterative and rng.random() < 0.12
+    if nan_run:
+        recipe["nan_rate"] = rng.choice([0.2, 0.4])
+        recipe.pop("late_data", None)
+    lowrank = (not iterative) and (not nan_run) and fam == "default" and not recipe.get("batch") and rng.random() < 0.15
     if lowrank:
         recipe["n"] = rng.randint(10, 14)
     # swarm: which op kinds are enabled in this run and with what weight
@@ -168,6 +173,11 @@ def generate(rng, tier, index):
     if ops[-1]["op"] != "predict":
         ops.append(gen_predict(rng, recipe, iterative, allow, p_each))
     core.sticky_bundles(rng, ops)
+    if nan_run:
+        for o in ops:
+            if "bundle" in o:
+                pol = rng.choice(["mask", "mask", "fill"])
+                o["bundle"] = [b for b in o["bundle"] if b[0] != "observation_nan_policy"] + [["observation_nan_policy", {"value": pol}]]
     for o in ops:
         if o["op"] == "predict" and rng.random() < 0.08:
             o["at"] = "train"  # predict exactly at the current training inputs
@@ -279,6 +289,7 @@ def new_train_data(recipe, op, model):
         fixed = zoo.fixed_noise_vector(op["seed"], batch, n)
     if recipe.get("one_d") and len(inputs) == 1 and not batch and d == 1:
         inputs = (x.squeeze(-1),)
+    y = zoo.with_nans(y, recipe, op["seed"])
     if kind == "targets_only":
         return None, y, None
     if kind == "inputs_only":
